@@ -295,3 +295,40 @@ Definition known_found_withdrawn (ifs : iftab) (h : list iter) : bool := known_f
 
 Definition is_followup_fail (f : BrowserSpec.fail) : bool :=
   match f with BrowserSpec.F04_followup _ _ _ => true | _ => false end.
+
+(* C04-stale-resolve-overlaps-series (found by the seed sweep after round 9): when the retransmission
+   pass of some iteration starts, two follow-up (Resolve) retransmissions for the SAME instance are
+   queued - the leftover of an earlier episode (the instance was resolved meanwhile: it left
+   pending_resolves, its queued Resolve command stayed) and the series of the current one.  The
+   leftover then ends "its" series (the instance leaves pending_resolves although the new series is
+   running, so the next new record starts a third one) or continues as a second, parallel series:
+   more than three follow-up questions without new records.  Evaluated along the model's run. *)
+Fixpoint resolve_insts (r : list (N * rcmd)) : list bytes :=
+  match r with
+  | [] => []
+  | (_, RResolve i _) :: t => i :: resolve_insts t
+  | _ :: t => resolve_insts t
+  end.
+
+Fixpoint has_dup (l : list bytes) : bool :=
+  match l with
+  | [] => false
+  | x :: t => mem x t || has_dup t
+  end.
+
+Definition iter_overlap (ifs : iftab) (s : st) (it : iter) : bool :=
+  let now := i_now it in
+  let s1 := fst (run_cmds (handle_read ifs) s now (deliveries_in_order (i_dgrams it))) in
+  let s2 := fst (run_cmds exec_call s1 now (i_calls it)) in
+  has_dup (resolve_insts (s_retrans s2)).
+
+Fixpoint known_overlap_from (ifs : iftab) (s : st) (h : list iter) : bool :=
+  match h with
+  | [] => false
+  | it :: t => iter_overlap ifs s it || known_overlap_from ifs (fst (iterate ifs s it)) t
+  end.
+
+Definition known_overlapping_series (ifs : iftab) (h : list iter) : bool := known_overlap_from ifs init_st h.
+
+Definition is_many_fail (f : BrowserSpec.fail) : bool :=
+  match f with BrowserSpec.F04_many _ _ => true | _ => false end.
